@@ -101,6 +101,8 @@ FOREIGN = {
         (ENTRYF, "the encrypted flag is set exactly when keys were given"),
     ],
     "C17": [
+        (("rules.C20", "store_rules", "facts"), "data_start() as reported by the reader is what find_content computed from the LOCAL header (not a value precomputed from the central record)"),
+        (("rules.C03", "central_rules", "ctx"), "the reader locates the (aligned) data through the local header's own lengths"),
         (("rules.C02", "offs_rules", "ctx"), "the data start recorded at open is the observed stream position (not recomputed from lengths)"),
         (("rules.shared_count", "exact_rule", "facts"), "central extra data is emitted with exact-length writes"),
         (TS, "bytes written in extra-data mode never reach the entry's CRC/size accounting, for every call sequence"),
